@@ -22,7 +22,7 @@ def run(res):
                         "pool A = repository headers with their own flag lines (quick: 150 sampled, thorough: all), pool B = generated C++ declaration graphs "
                         "(inheritance chains/diamonds, virtual methods, destructors, typedef chains, templates with used/unused parameters instantiated with "
                         "each other, arrays beyond 32, >12-argument function pointers, bit-fields, unions, opaque and blocklisted members, allowlist cuts) "
-                        "each emitted in 2 (quick) / 4 (thorough) topological declaration orders; for every generation the Lean model recomputes all ten "
+                        "each emitted in 2 (quick) / 4 (thorough) topological declaration orders; for every generation the Lean model recomputes all eleven "
                         "analyses from the dumped graph under three schedules and must equal the dumped answers; non-trivial = the real analyses produced "
                         "at least one non-bottom fact; distinct = distinct (types, edges, facts) dumps",
                 "samples": rep["samples"],
@@ -36,7 +36,7 @@ def run(res):
                 "generation_errors": rep["generation_errors"], "generation_panics": rep["generation_panics"],
             })
         res.assumptions += [
-            "used_template_params (power-set lattice) is covered by the generic theorems and by the sweep hook / re-ordering experiment, but its rule is not modelled as an instance",
+            "used_template_params is modelled as Horn clauses over the facts 'item n uses parameter p' (an Instance over item x parameter pairs, so instance_lawful applies to the model); the real analysis works on whole sets per item with its own dependency map: that it reaches the same least solution is shown by the recomputation correspondence, the hook and the re-ordering experiment, not by a theorem about its dependency map",
             "stability of a concrete graph needs the decidable condition readsCovered; graphs where it fails (typerefs named like stdint types, which Trace skips) are counted in graphs_with_uncovered_reads — their unstable facts are reported by the hook and are violations only when code generation consults them",
             "libclang supplies the graph; the IR dump is trusted to print it faithfully",
         ]
